@@ -2,7 +2,7 @@
 
 import math
 
-from kernel.type import RealType
+from kernel.type import NatType, IntType, RealType
 from kernel.term import Term, Var, Lambda, Inst, Nat, Real, Eq
 from kernel.thm import Thm
 from kernel.proofterm import ProofTerm, TacticException
@@ -11,6 +11,7 @@ from kernel.theory import register_macro
 from logic.conv import Conv, ConvException, then_conv, binop_conv, arg_conv, arg1_conv, rewr_conv
 from logic.logic import apply_theorem
 from data import nat
+from data import integer
 from data import real
 from data import set as hol_set
 from logic import auto
@@ -53,20 +54,34 @@ def eval_hol_expr(t: Term):
 
     return res
 
+def eval_const_expr(t: Term):
+    """Evaluate a constant HOL term according to its type."""
+    T = t.get_type()
+    try:
+        if T == NatType:
+            return nat.nat_eval(t)
+        elif T == IntType:
+            return integer.int_eval(t)
+    except ConvException:
+        raise NotImplementedError
+    if T != RealType:
+        raise NotImplementedError
+    return eval_hol_expr(t)
+
 def eval_inequality_expr(t):
     """Evaluate inequality."""
     if t.is_equals():
-        return eval_hol_expr(t.arg1) == eval_hol_expr(t.arg)
+        return eval_const_expr(t.arg1) == eval_const_expr(t.arg)
     elif t.is_not() and t.arg.is_equals():
-        return eval_hol_expr(t.arg.arg1) != eval_hol_expr(t.arg.arg)
+        return eval_const_expr(t.arg.arg1) != eval_const_expr(t.arg.arg)
     elif t.is_greater_eq():
-        return eval_hol_expr(t.arg1) >= eval_hol_expr(t.arg)
+        return eval_const_expr(t.arg1) >= eval_const_expr(t.arg)
     elif t.is_greater():
-        return eval_hol_expr(t.arg1) > eval_hol_expr(t.arg)
+        return eval_const_expr(t.arg1) > eval_const_expr(t.arg)
     elif t.is_less_eq():
-        return eval_hol_expr(t.arg1) <= eval_hol_expr(t.arg)
+        return eval_const_expr(t.arg1) <= eval_const_expr(t.arg)
     elif t.is_less():
-        return eval_hol_expr(t.arg1) < eval_hol_expr(t.arg)
+        return eval_const_expr(t.arg1) < eval_const_expr(t.arg)
     else:
         raise NotImplementedError
 
